@@ -29,6 +29,25 @@ REMOTE_LINE_END = " =========\n"
 REMOTE_LINE = "{0}({{}}){1}".format(REMOTE_LINE_START, REMOTE_LINE_END)
 
 
+def _encodable(obj):
+    """`brine.dumpable` only checks types: text with lone surrogates or an integer beyond the
+    interpreter's digit limit passes it and still cannot be encoded"""
+    if not brine.dumpable(obj):
+        return False
+    try:
+        brine.dump(obj)
+    except Exception:
+        return False
+    return True
+
+
+def _safe_repr(obj):
+    try:
+        return repr(obj)
+    except Exception:
+        return "<unrepresentable %s object>" % (type(obj).__name__,)
+
+
 def dump(typ, val, tb, include_local_traceback, include_local_version):
     """Dumps the given exceptions info, as returned by ``sys.exc_info()``
 
@@ -54,16 +73,18 @@ def dump(typ, val, tb, include_local_traceback, include_local_version):
         tbtext = "".join(traceback.format_exception(typ, val, tb))
     else:
         tbtext = "<traceback denied>"
+    # the text of an exception may contain lone surrogates (e.g. undecodable file names)
+    tbtext = tbtext.encode("utf8", "backslashreplace").decode("utf8")
     attrs = []
     args = []
     ignored_attrs = frozenset(["_remote_tb", "with_traceback"])
     for name in dir(val):
         if name == "args":
             for a in val.args:
-                if brine.dumpable(a):
+                if _encodable(a):
                     args.append(a)
                 else:
-                    args.append(repr(a))
+                    args.append(_safe_repr(a))
         elif name.startswith("_") or name in ignored_attrs:
             continue
         else:
@@ -72,8 +93,8 @@ def dump(typ, val, tb, include_local_traceback, include_local_version):
             except AttributeError:
                 # skip this attr. see issue #108
                 continue
-            if not brine.dumpable(attrval):
-                attrval = repr(attrval)
+            if not _encodable(attrval):
+                attrval = _safe_repr(attrval)
             attrs.append((name, attrval))
     if include_local_version:
         attrs.append(("_remote_version", version.version_string))
